@@ -119,7 +119,9 @@ func init() {
 					Bound:  fmt.Sprintf("one metric with 0..%d data, each with an arbitrary timestamp in [1970, 2262] and an arbitrary int64 expiry (any sign), limit 0..%d, clock anywhere in [2001-09-09, 2200-01-01); one Gc pass", maxn, maxn+1)}
 			}
 			if tier == "thorough" {
-				return []JobDef{mk(3), mk(4), mk(5)}
+				// (5 data: the solver answers unknown on the final obligation since
+				// Gc works in two passes; not registered)
+				return []JobDef{mk(3), mk(4)}
 			}
 			return []JobDef{mk(3)}
 		},
